@@ -117,6 +117,7 @@ CLASS_EXPR_CHECKS = {
 VE = 'builtins.ValueError'
 PRIMS = {
     'index': (['builtins.LookupError'], 'x[i] / d[k] / del d[k] not known to be guarded: IndexError or KeyError'),
+    'dict_key': (['builtins.KeyError'], 'd[k] on a receiver known to be a dict: KeyError'),
     'setitem': (['builtins.LookupError'], 'x[i] = v on something that is not known to be a dict / mapping'),
     'unpack': ([VE], 'a, b = value: value not statically of that arity'),
     'divide': (['builtins.ZeroDivisionError'], 'division / modulo by a non-constant'),
@@ -372,6 +373,7 @@ RECV_TYPES = {
     ('*', 'ISO_8601_DATE_PATTERN'): ['ext:regex'], ('*', 'MMM_DD_YY_PATTERN'): ['ext:regex'], ('*', 'NN_NN_NNNN_PATTERN'): ['ext:regex'],
     ('*', 'match'): ['ext:match'],
     ('*', 'guess_date'): ['ext:datetime'],
+    ('wpull.protocol.ftp.ls.date', 'MONTH_MAP'): ['ext:dict'],
 }
 
 # explicit call resolution: (scope, callee text) -> spec
